@@ -8,6 +8,7 @@
 //   -DH_KIND=0|1                        0: trivial key/value (is_simple), 1: instrumented types
 //   -DH_NOTHROW=0|1                     (kind 1) move constructors noexcept or not
 #include <algorithm>
+#include <atomic>
 #include <cerrno>
 #include <sys/wait.h>
 #include <unistd.h>
@@ -53,7 +54,8 @@ static std::vector<std::string> g_errors; // harness-detected misuse (read of mo
 struct UserFault {};   // what a user's hash / equality / constructor / functor throws
 static int g_fault_kind = 0;      // 0 none, 1 k-th allocation, 2 hash of poison key, 3 equality with poison key,
                                   // 4 k-th copy construction of an element from user arguments, 5 functor
-static long g_fault_at = 0, g_fault_count = 0;
+static long g_fault_at = 0;
+static std::atomic<long> g_fault_count{0};
 static bool g_fault_fired = false;
 static const uint64_t kPoison = 999;
 static uint64_t hash_of(uint64_t id) {
@@ -111,7 +113,7 @@ struct Key {
   bool moved;
   explicit Key(uint64_t i) : id(i), moved(false) { g_reg.ctor(this, 1); }
   Key(const Key &o) : id(o.id), moved(o.moved) {
-    if (g_fault_kind == 4 && ++g_fault_count == g_fault_at) { g_fault_fired = true; throw UserFault(); }
+    if (g_fault_kind == 4 && g_fault_count.fetch_add(1) + 1 == g_fault_at) { g_fault_fired = true; throw UserFault(); }
     g_reg.ctor(this, o.moved ? 2 : 1);
   }
   Key(Key &&o) noexcept(H_NOTHROW) : id(o.id), moved(o.moved) {
@@ -137,7 +139,7 @@ struct Val {
   Val() : v(0), moved(false) { g_reg.ctor(this, 1); }
   explicit Val(int64_t x) : v(x), moved(false) { g_reg.ctor(this, 1); }
   Val(const Val &o) : v(o.v), moved(o.moved) {
-    if (g_fault_kind == 4 && ++g_fault_count == g_fault_at) { g_fault_fired = true; throw UserFault(); }
+    if (g_fault_kind == 4 && g_fault_count.fetch_add(1) + 1 == g_fault_at) { g_fault_fired = true; throw UserFault(); }
     g_reg.ctor(this, o.moved ? 2 : 1);
   }
   Val(Val &&o) noexcept(H_NOTHROW) : v(o.v), moved(o.moved) {
@@ -223,9 +225,9 @@ struct Args {
 
 // ---------------------------------------------------------------- allocator
 struct AllocStats {
-  long live_blocks = 0;
-  long live_bytes = 0;
-  long calls = 0;
+  std::atomic<long> live_blocks{0};
+  std::atomic<long> live_bytes{0};
+  std::atomic<long> calls{0};
 };
 static AllocStats g_alloc;
 template <class T> struct TrackAlloc {
@@ -238,7 +240,7 @@ template <class T> struct TrackAlloc {
   explicit TrackAlloc(int i) : id(i) {}
   template <class U> TrackAlloc(const TrackAlloc<U> &o) : id(o.id) {}
   T *allocate(size_t n) {
-    if (g_fault_kind == 1 && ++g_fault_count == g_fault_at) { g_fault_fired = true; throw std::bad_alloc(); }
+    if (g_fault_kind == 1 && g_fault_count.fetch_add(1) + 1 == g_fault_at) { g_fault_fired = true; throw std::bad_alloc(); }
     ++g_alloc.calls;
     ++g_alloc.live_blocks;
     g_alloc.live_bytes += (long)(n * sizeof(T));
@@ -827,9 +829,20 @@ static void fault_child(int a, const std::vector<std::string> &tk, int kind, lon
   bool fired = g_fault_fired;
   std::string verdict = "ok", detail;
   if (!g_errors.empty()) { verdict = "harness-error"; detail = g_errors[0]; }
+  size_t after_hash = 0;
+  {
+    std::string all;
+    for (int i = 0; i < NT; ++i) all += contents_string(i) + ";";
+    after_hash = std::hash<std::string>()(all + res);
+  }
+  bool recovered = false;
   if (fired && verdict == "ok") {
     const char *want = (kind == 1) ? "exc:bad_alloc" : "exc:user";
-    if (res.find(want) == std::string::npos) { verdict = "exception-did-not-reach-caller"; detail = res; }
+    if (res.find(want) == std::string::npos) {
+      // no exception reached the caller: acceptable only if the library recovered completely, i.e. the
+      // outcome is the outcome of the unfaulted run (decided by the parent against the control child)
+      recovered = true; verdict = "recovered?"; detail = res;
+    }
     for (int i = 0; i < NT && verdict == "ok"; ++i) {
       std::string after = contents_string(i);
       if (kind != 5) {
@@ -860,6 +873,7 @@ static void fault_child(int a, const std::vector<std::string> &tk, int kind, lon
     for (int i = 0; i < NT && verdict == "ok"; ++i)
       if (g_tab[i] && !was_active[i] && !all_locks_free(i)) { verdict = "lock-held-after-exception"; detail = "T" + std::to_string(i); }
   }
+  if (recovered) verdict = "ok";
   // follow-up workload, destruction, allocation / object balance
   if (verdict == "ok") {
     try {
@@ -877,7 +891,7 @@ static void fault_child(int a, const std::vector<std::string> &tk, int kind, lon
   long live_blocks = -1, live_objs = -1;
   if (verdict == "ok") {
     for (int i = 0; i < NT; ++i) { g_lt[i].reset(); g_tab[i].reset(); }
-    live_blocks = g_alloc.live_blocks;
+    live_blocks = g_alloc.live_blocks.load();
 #if H_KIND == 1
     live_objs = (long)g_reg.st.size();
 #else
@@ -885,8 +899,12 @@ static void fault_child(int a, const std::vector<std::string> &tk, int kind, lon
 #endif
     if (!g_errors.empty()) { verdict = "harness-error"; detail = g_errors[0]; }
   }
-  char buf[200];
-  snprintf(buf, sizeof buf, "FAULT kind=%d k=%ld fired=%d blocks=%ld objs=%ld verdict=%s res=", kind, k, fired ? 1 : 0, live_blocks, live_objs, verdict.c_str());
+  char buf[260];
+  snprintf(buf, sizeof buf, "FAULT kind=%d k=%ld fired=%d blocks=%ld objs=%ld after=%zu verdict=%s res=", kind, k, fired ? 1 : 0, live_blocks, live_objs,
+           after_hash, verdict.c_str());
+  if (recovered && verdict == "ok") verdict = "recovered";
+  snprintf(buf, sizeof buf, "FAULT kind=%d k=%ld fired=%d blocks=%ld objs=%ld after=%zu verdict=%s res=", kind, k, fired ? 1 : 0, live_blocks, live_objs,
+           after_hash, verdict.c_str());
   std::string line = std::string(buf) + res.substr(0, 60) + (detail.empty() ? "" : " detail=" + detail.substr(0, 240)) + "\n";
   if (write(wfd, line.data(), line.size()) < 0) {}
   _exit(0);
@@ -916,7 +934,17 @@ static void enumerate_faults(int lineno, const std::string &ln, int a, const std
   long cb = -2, co = -2;
   { size_t p = ctl.find("blocks="); if (p != std::string::npos) cb = atol(ctl.c_str() + p + 7);
     p = ctl.find("objs="); if (p != std::string::npos) co = atol(ctl.c_str() + p + 5); }
+  size_t cafter = 0;
+  { size_t p = ctl.find("after="); if (p != std::string::npos) cafter = strtoull(ctl.c_str() + p + 6, nullptr, 10); }
   auto report = [&](std::string got) {
+    {
+      size_t q = got.find("verdict=recovered");
+      if (q != std::string::npos) {
+        size_t p = got.find("after=");
+        size_t a = p != std::string::npos ? strtoull(got.c_str() + p + 6, nullptr, 10) : 0;
+        got.replace(q, 17, a == cafter ? "verdict=ok" : "verdict=exception-did-not-reach-caller");
+      }
+    }
     if (got.find("verdict=ok") != std::string::npos && got.find("fired=1") != std::string::npos) {
       long b = -1, o = -1;
       size_t p = got.find("blocks="); if (p != std::string::npos) b = atol(got.c_str() + p + 7);
@@ -1009,7 +1037,7 @@ int main(int argc, char **argv) {
     g_lt[i].reset();
     g_tab[i].reset();
   }
-  out += "END live_blocks=" + std::to_string(g_alloc.live_blocks) + " live_bytes=" + std::to_string(g_alloc.live_bytes);
+  out += "END live_blocks=" + std::to_string(g_alloc.live_blocks.load()) + " live_bytes=" + std::to_string(g_alloc.live_bytes.load());
 #if H_KIND == 1
   out += " live_objects=" + std::to_string((long)g_reg.st.size());
 #else
